@@ -57,14 +57,19 @@ RULES = {
     "C12": "(a) c12a-<operator>: every definition of generated files x {truncate before a mandatory token, delete a mandatory token, "
            "replace a mandatory token by an illegal character ($ ? NUL 0xFF truncated/surrogate UTF-8), truncate inside a string, "
            "unterminated string, oversized number, keyword replaced by $, keyword replaced by NUL / 0xFF / truncated 2-byte "
-           "sequence (illegal-first-byte, counted per kind of the preceding definition; the witness BO_ 1 M: 8 N\\n\\x00 first)}; (b) c12b-<generator>-<outcome>: grammar outputs with 1-3 byte "
+           "sequence (illegal-first-byte, counted per kind of the preceding definition; the witness BO_ 1 M: 8 N\\n\\x00 first), "
+           "NUL / 0xFF / truncated / surrogate UTF-8 inserted INSIDE the definition after its intact keyword: in the middle of every "
+           "string literal and at one more place (illegal-inside; Defs() must not contain the corrupted definition: clause "
+           "locality-corrupted-definition-reported)}; (b) c12b-<generator>-<outcome>: grammar outputs with 1-3 byte "
            "edits, inserted invalid UTF-8/NUL/BOM, huge and malformed numbers, deep repetition (200..1700 fragments), random bytes, "
            "random DBC-alphabet text, token soup, integer-conversion probes; (c) c12b-tokmut-<kind>-<outcome>: grammar-aware token "
            "mutations (harness/parser/tokmut.go): 43 fixed well-formed instances covering every definition kind and form (BA_DEF_DEF_ / BA_ "
            "after the five BA_DEF_ types), each single token in turn replaced by each of 110 boundary tokens (m M m0 mM m1M m-1 "
            "m9..9, single letters, - + . e 0x 1e 1e+ 00 -0, \"\" and unterminated strings, identifiers of 128/129 chars, every "
            "punctuation character, 2047/2048, 2^31, 2^32, 2^53, 2^63, 2^64 and neighbours, 1e400, enumeration names, NUL/0xFF/"
-           "truncated UTF-8/BOM, every DBC keyword), deleted, duplicated; variants: alone / followed by another definition / input "
+           "truncated UTF-8/BOM, every DBC keyword), deleted, duplicated; at every string position in addition 25 string literals with "
+           "runs of 1..3 backslashes before a plain character / an escaped quote / a line end / a space / the closing quote, "
+           "embedded LF and CRLF, NUL and invalid UTF-8 inside (always emitted); variants: alone / followed by another definition / input "
            "ends right after the changed token; quick = every triple at the SG_ multiplexer position (alone and at the end of the "
            "input), the attribute value / range positions, enum indices and message ids plus one in 8 of the others chosen by the "
            "seed, thorough = every triple in all three variants (~113000); non-trivial = error or at least one definition; "
@@ -126,7 +131,7 @@ def harness_args(pid, tier, seed):
     if pid == "C04":
         return ["c04", seed] + ([6000, 40] if tier == "quick" else [60000, 40])
     # files, max definitions, random cases, token-mutation stride (0 = every triple in every variant)
-    return ["c12", seed] + ([170, 25, 14000, 8] if tier == "quick" else [3000, 30, 400000, 0])
+    return ["c12", seed] + ([170, 25, 10000, 8] if tier == "quick" else [3000, 30, 400000, 0])
 
 
 def run(res, replay=None):
